@@ -16,7 +16,9 @@ THEOREMS = ["NakenVerif.Listing." + t for t in (
     "unaligned_code_counterexample", "repeat_gap_counterexample")]
 RULE = ("programs: one program per case from tools/gen_listing.py (CPU from corpus/statements x shape: plain, instruction after "
         "odd-length data, .repeat of code/data/mixed/with a gap/behind odd data, reservations and alignments, several .org "
-        "segments, 64 KiB page boundaries, macro bodies, .include files, data only (both byte orders), data runs that start "
+        "segments, 64 KiB page boundaries, page geometry (a data / code run that ends on the last byte of a page or a few bytes "
+        "in front of it, run lengths 1..17 and 31..33, 0-3 never allocated pages, the next run on the first byte of a later "
+        "page or inside it, bytes_per_address 1/2/4, fixed grid + random), macro bodies, .include files, data only (both byte orders), data runs that start "
         "inside an address unit, code only, empty program, labels everywhere, a second .org over assembled bytes, program "
         "ending at 2^32); each is assembled by the real naken_asm with -l (process level), the .lst is parsed, the output "
         "file decoded by tools/fileio_spec.py, and compared byte by byte.  A case is non-trivial when the program has >= 3 "
@@ -79,6 +81,7 @@ def fixed_programs():
                 ("db", "db", [N(1), N(2), N(3), N(4)]), ("ins", "addi a1, a1, 2"), ("db", "db", [N(1), N(2), N(3), N(4)])]})
     out.append({"cpu": "riscv", "shape": "top", "fit_top": 0, "items": [("org", N(0x1000)), ("ins", "addi a0, a0, 1"),
                 ("db", "db", [N(1), N(2), N(3), N(4)]), ("ins", "addi a1, a1, 2")]})
+    out += GL.pages_fixed()
     return out
 
 
@@ -90,6 +93,9 @@ def build_programs(ctx):
         progs.append(g.program())
     for _ in range(ctx.scale(12, 60)):
         progs.append(g.program(shape="top"))
+    # page geometry: runs that end on the last byte / start on the first byte of a 64 KiB page, untouched pages between
+    for _ in range(ctx.scale(100, 1200)):
+        progs.append(g.program(shape="pages"))
     # the two modelled CPUs get a denser stream
     for cpu in ("msp430", "riscv"):
         for _ in range(ctx.scale(150, 1500)):
@@ -120,11 +126,36 @@ def fit_top(ctx, progs):
         p["fitted"] = True
 
 
+def fit_pages(ctx, progs):
+    """programs of shape 'pages' with fit_end: move the first .org so that segment 1 ends at byte address fit_end"""
+    idx = [i for i, p in enumerate(progs) if p.get("shape") == "pages" and "fit_end" in p]
+    if not idx:
+        return
+    lines = []
+    for i in idx:
+        src, inc = GL.render({"cpu": progs[i]["cpu"], "items": progs[i]["items"][:progs[i]["seg1"]]})
+        lines.append(nvlib.prog_line(src, includes=inc))
+    ans = nvlib.run_lines(ctx.harness, lines, timeout=TIMEOUT)
+    for i, a in zip(idx, ans):
+        pr = nvlib.parse_prog(a)
+        p = progs[i]
+        if pr["died"] or pr["st"] != 0 or not pr["image"]:
+            p["geometry"] += " (unfitted)"
+            continue
+        bpa = pr["bpa"]
+        size = max(pr["image"]) + 1 - p["items"][0][1][1] * bpa
+        if size <= 0 or (p["fit_end"] - size) % bpa or p["fit_end"] - size < 0:
+            p["geometry"] += " (unfitted)"
+            continue
+        p["items"][0] = ("org", GL.N((p["fit_end"] - size) // bpa))
+
+
 def run_programs(ctx, progs):
     """-> list of dicts: src, inc, proc (run_asm result), pr (in-process image/marks/symbols), ext (statement extents)"""
     exe = ctx.repo["naken_asm"]
     tmp = ctx.tmpdir()
     fit_top(ctx, progs)
+    fit_pages(ctx, progs)
     for p in progs:
         if p.get("shape") == "top" and not p.get("fitted"):
             p["shape"] = "plain"              # could not be measured (rejected): stays where it is
@@ -165,6 +196,25 @@ def get_runs(ctx):
 
 # ---------------------------------------------------------------- the property itself against the real code
 
+def page_class(p, pr):
+    """what the image of a 'pages' program looks like, measured on the image: kind of the last byte in front of the
+    first untouched stretch that spans a page boundary, whether that byte is the last of its page, number of untouched
+    pages, kind / page offset of the first byte behind"""
+    image, kinds = pr["image"], pr["kinds"]
+    addrs = sorted(image)
+    for x, y in zip(addrs, addrs[1:]):
+        if (y >> 16) != (x >> 16):
+            run = 1
+            while x - run in image and kinds.get(x - run) == kinds.get(x):
+                run += 1
+            gap = (y >> 16) - (x >> 16) - 1
+            return "%s %s, run length %s | %s | %s %s" % (
+                "data" if kinds.get(x) == "d" else "code", "ends its page" if x & 0xffff == 0xffff else "ends inside its page",
+                "= 0 mod 16" if run % 16 == 0 else "!= 0 mod 16", "no untouched page" if gap == 0 else "1 untouched page" if gap == 1 else ">= 2 untouched pages",
+                "data" if kinds.get(y) == "d" else "code", "starts its page" if y & 0xffff == 0 else "starts inside its page")
+    return "single page"
+
+
 def sig_of(cls, cpu, src):
     return "C18:%s:%s:%s" % (cls, cpu, nvlib.sha(src.encode("latin-1"))[:10])
 
@@ -175,6 +225,7 @@ def oracle(ctx, orc, focus=None):
     shapes = collections.Counter()
     cpus = collections.Counter()
     classes = collections.Counter()
+    geometry = collections.Counter()
     nontrivial = set()
     for r in runs:
         p, proc, pr = r["prog"], r["proc"], r["pr"]
@@ -204,6 +255,8 @@ def oracle(ctx, orc, focus=None):
         stats["compared"] += 1
         shapes[p.get("shape", "?")] += 1
         cpus[cpu] += 1
+        if p.get("shape") == "pages":
+            geometry[page_class(p, pr)] += 1
         if len(GL.flatten(p["items"])) >= 3:
             nontrivial.add(r["src"])
         try:
@@ -224,7 +277,8 @@ def oracle(ctx, orc, focus=None):
             classes[cls.split("/")[0] + ":" + cpu] += 1
             orc["failures"].append({"sig": sig_of(cls, cpu, r["src"]), "input": r["src"], "expected": "listing = output",
                                     "observed": detail, "what": cls, "includes": r["inc"], "cpu": cpu})
-    orc["stats"] = {"runs": dict(stats), "shapes": dict(shapes), "cpus": dict(cpus), "failure_classes": dict(classes)}
+    orc["stats"] = {"runs": dict(stats), "shapes": dict(shapes), "cpus": dict(cpus), "failure_classes": dict(classes),
+                    "page_geometry": dict(sorted(geometry.items()))}
     orc["distinct_nontrivial"] = len(nontrivial)
     ok = [r for r in runs if r["proc"]["rc"] == 0 and r["proc"]["lst"]]
     k = max(1, len(ok) // 4)
